@@ -526,4 +526,424 @@ theorem matchTag_err (stack : List TypeId) : ∀ (cands : List (CandInfo × List
               have h1 := resolve_crash _ _ hcr
               simp [h1] at this
 
+/-- `addElement` unfolded once, without the equation binders its termination proof needs -/
+theorem addElement_eq (P : Parser) (tag : String) (cands : List (CandInfo × List DNode)) (kids : List DNode)
+    (start : Nat) (w : WState) :
+    addElement P tag cands kids start w =
+      match matchTag P w.stack cands start with
+      | .error e => .error e
+      | .ok om =>
+        match decideTag tag om with
+        | .ignore => ignoreFallback P w tag
+        | .skipCrash => .error .valueError
+        | .plain closeParent =>
+          match blockOpen P w tag (normKids P tag kids).isEmpty closeParent with
+          | .error e => .error e
+          | .ok (.done w1) => .ok w1
+          | .ok (.go w1 bc) =>
+            match addAll P tag (normKids P tag kids) false w1 with
+            | .error e => .error e
+            | .ok w2 => blockClose P w2 bc
+        | .byRule m =>
+          match ruleOpen P w tag m.rule m.attrs with
+          | .error e => .error e
+          | .ok (w1, rc) =>
+            match (if rc.leaf then .ok w1
+              else if !m.rule.consuming then addElement P tag cands (normKids P tag kids) (m.idx + 1) w1
+              else
+                match m.info.kind with
+                | .nodes => insertAll P m.info.nodes w1
+                | .alt => addAll P m.info.altTag m.alt false w1
+                | .children => addAll P tag (normKids P tag kids) false w1) with
+            | .error e => .error e
+            | .ok w2 => ruleClose P w2 rc := by
+  rw [addElement]
+  split
+  · rename_i e h; simp only [h]
+  · rename_i om h
+    simp only [h]
+    split
+    · rename_i hd; simp only [hd]
+    · rename_i hd; simp only [hd]
+    · rename_i cp hd; simp only [hd]; rfl
+    · rename_i m hd; simp only [hd]; rfl
+
+/-! ### the guards survive list normalisation and reach the parts of the tree -/
+
+theorem listOk_append (a b : List DNode) : listOk strict N (a ++ b) = (listOk strict N a && listOk strict N b) := by
+  induction a with
+  | nil => simp [listOk]
+  | cons x a ih => simp [listOk, ih, Bool.and_assoc]
+
+theorem ok_appendKid (li c : DNode) (h : li.truthy = true) :
+    (li.appendKid c).ok strict N = (li.ok strict N && c.ok strict N) := by
+  cases li with
+  | elem t s cs kids => simp [DNode.appendKid, DNode.ok, listOk_append, listOk, Bool.and_assoc]
+  | text _ => simp [DNode.truthy] at h
+  | other => simp [DNode.truthy] at h
+
+theorem listOk_flushCur (cur : Option (DNode × List DNode)) :
+    listOk strict N (flushCur cur) = match cur with
+      | none => true
+      | some (li, tr) => li.ok strict N && listOk strict N tr := by
+  cases cur with
+  | none => simp [flushCur, listOk]
+  | some p => obtain ⟨li, tr⟩ := p; simp [flushCur, listOk]
+
+theorem listOk_normGo : ∀ (rest acc : List DNode) (cur : Option (DNode × List DNode)),
+    listOk strict N (normGo rest acc cur) =
+      (listOk strict N rest && listOk strict N acc && listOk strict N (flushCur cur))
+  | [], acc, cur => by simp [normGo, listOk_append, listOk]
+  | c :: rest, acc, cur => by
+    unfold normGo
+    split
+    · split
+      · rename_i li tr
+        split
+        · rename_i ht
+          rw [listOk_normGo rest acc _]
+          simp only [flushCur, listOk, ok_appendKid li c ht]
+          cases c.ok strict N <;> cases li.ok strict N <;> cases listOk strict N rest <;> cases listOk strict N acc <;> simp
+        · rw [listOk_normGo rest _ none]
+          simp only [flushCur, listOk, listOk_append, List.cons_append, List.append_assoc]
+          cases c.ok strict N <;> cases li.ok strict N <;> cases listOk strict N rest <;> cases listOk strict N acc <;> simp
+      · rw [listOk_normGo rest _ none]
+        simp only [flushCur, listOk, listOk_append]
+        cases c.ok strict N <;> cases listOk strict N rest <;> cases listOk strict N acc <;> simp
+    · rw [listOk_normGo rest _ _]
+      simp only [flushCur, listOk, listOk_append, listOk_flushCur]
+      cases cur with
+      | none => cases c.ok strict N <;> cases listOk strict N rest <;> cases listOk strict N acc <;> simp
+      | some p =>
+        obtain ⟨li, tr⟩ := p
+        cases c.ok strict N <;> cases li.ok strict N <;> cases listOk strict N rest <;> cases listOk strict N acc <;> simp
+    · rw [listOk_normGo rest _ none]
+      simp only [flushCur, listOk, listOk_append, listOk_flushCur]
+      cases cur with
+      | none => cases c.ok strict N <;> cases listOk strict N rest <;> cases listOk strict N acc <;> simp
+      | some p =>
+        obtain ⟨li, tr⟩ := p
+        cases c.ok strict N <;> cases li.ok strict N <;> cases listOk strict N rest <;> cases listOk strict N acc <;> simp
+    · split
+      · rw [listOk_normGo rest acc _]
+        simp only [flushCur, listOk, listOk_append]
+        rename_i li tr
+        cases c.ok strict N <;> cases li.ok strict N <;> cases listOk strict N rest <;> cases listOk strict N acc <;> simp
+      · rw [listOk_normGo rest _ none]
+        simp only [flushCur, listOk, listOk_append]
+        cases c.ok strict N <;> cases listOk strict N rest <;> cases listOk strict N acc <;> simp
+
+theorem listOk_normKids (tag : String) (kids : List DNode) :
+    listOk strict N (normKids P tag kids) = listOk strict N kids := by
+  unfold normKids
+  split
+  · simp [normalizeList, listOk_normGo, flushCur, listOk]
+  · rfl
+
+theorem candsOk_mem : ∀ (cands : List (CandInfo × List DNode)) (c : CandInfo × List DNode),
+    candsOk strict N cands = true → c ∈ cands → pairOk strict N c = true
+  | [], _, _, h => by cases h
+  | x :: xs, c, hok, h => by
+    simp only [candsOk, Bool.and_eq_true] at hok
+    rcases List.mem_cons.1 h with rfl | h
+    · exact hok.1
+    · exact candsOk_mem xs c hok.2 h
+
+theorem candsOk_noRaise (hs : strict = true) : ∀ (cands : List (CandInfo × List DNode)),
+    candsOk strict N cands = true → cands.all (fun c => !c.1.ga.isRaises) = true
+  | [], _ => rfl
+  | (c, alt) :: xs, hok => by
+    simp only [candsOk, pairOk, Bool.and_eq_true] at hok
+    simp only [List.all_cons, Bool.and_eq_true]
+    refine ⟨?_, candsOk_noRaise hs xs hok.2⟩
+    have := hok.1.1.1
+    simpa [hs] using this
+
+theorem tagRuleOk_of_rules (hr : P.rulesOk = true) (i : Nat) (r : TagRule) (h : P.tags[i]? = some r) : tagRuleOk r = true := by
+  simp only [Parser.rulesOk, Bool.and_eq_true, List.all_eq_true] at hr
+  simpa [tagRuleOk] using hr.1 r (List.mem_of_getElem? h)
+
+/-! ### the walk keeps the invariant -/
+
+/-- **one induction over the whole walk**: under a `Frame` (every single admissible call into the placement
+    core keeps `I` or fails acceptably), `add_all` / `add_dom` / `add_element` keep `I` or fail acceptably, on
+    every DOM that satisfies the guards `listOk strict N` -/
+theorem walk_post (F : Frame P N I E strict) :
+    (∀ (ptag : String) (kids : List DNode) (prevBr : Bool) (w : WState),
+      I w → listOk strict N kids = true → Post I E (addAll P ptag kids prevBr w)) ∧
+    (∀ (ptag : String) (prevBr : Bool) (k : DNode) (w : WState),
+      I w → k.ok strict N = true → Post I E (addDom P ptag prevBr k w)) ∧
+    (∀ (tag : String) (cands : List (CandInfo × List DNode)) (kids : List DNode) (start : Nat) (w : WState),
+      I w → candsOk strict N cands = true → listOk strict N kids = true → Post I E (addElement P tag cands kids start w)) := by
+  apply addAll.mutual_induct P
+    (fun ptag kids prevBr w => I w → listOk strict N kids = true → Post I E (addAll P ptag kids prevBr w))
+    (fun ptag prevBr k w => I w → k.ok strict N = true → Post I E (addDom P ptag prevBr k w))
+    (fun tag cands kids start w => I w → candsOk strict N cands = true → listOk strict N kids = true →
+      Post I E (addElement P tag cands kids start w))
+  -- addAll []
+  · intro ptag prevBr w hi _
+    rw [addAll]; exact hi
+  -- addAll (k :: ks), addDom fails
+  · intro ptag prevBr w k ks e he ih hi hok
+    simp only [listOk, Bool.and_eq_true] at hok
+    have := ih hi hok.1
+    rw [he] at this
+    rw [addAll]; simp only [he]; exact this
+  -- addAll (k :: ks), addDom succeeds
+  · intro ptag prevBr w k ks w' he ih1 ih2 hi hok
+    simp only [listOk, Bool.and_eq_true] at hok
+    have := ih1 hi hok.1
+    rw [he] at this
+    rw [addAll]; simp only [he]
+    exact ih2 this hok.2
+  -- addDom other / text
+  · intro ptag prevBr w hi _
+    rw [addDom]; exact hi
+  · intro ptag prevBr w t hi hok
+    rw [addDom]
+    refine addTextNode_post F w t _ _ hi (fun hs => ?_)
+    simpa [DNode.ok, hs] using hok
+  -- addDom elem: stylePre fails / drops the element
+  · intro ptag prevBr w tag styles cands kids e he hi hok
+    simp only [DNode.ok, Bool.and_eq_true] at hok
+    have := stylePre_post F w styles hi (fun hs => by simpa [hs] using hok.1.1)
+    rw [he] at this
+    rw [addDom]; simp only [he]; exact this
+  · intro ptag prevBr w tag styles cands kids he hi _
+    rw [addDom]; simp only [he]; exact hi
+  -- addDom elem: addElement fails / succeeds
+  · intro ptag prevBr w tag styles cands kids w1 sc he e hae ih hi hok
+    simp only [DNode.ok, Bool.and_eq_true] at hok
+    have h1 := stylePre_post F w styles hi (fun hs => by simpa [hs] using hok.1.1)
+    rw [he] at h1
+    have := ih h1 hok.1.2 hok.2
+    rw [hae] at this
+    rw [addDom]; simp only [he, hae]; exact this
+  · intro ptag prevBr w tag styles cands kids w1 sc he w' hae ih hi hok
+    simp only [DNode.ok, Bool.and_eq_true] at hok
+    have h1 := stylePre_post F w styles hi (fun hs => by simpa [hs] using hok.1.1)
+    rw [he] at h1
+    have := ih h1 hok.1.2 hok.2
+    rw [hae] at this
+    rw [addDom]; simp only [he, hae]
+    exact stylePost_post F w' sc this
+  -- addElement: match_tag fails
+  · intro tag cands kids start w e hm hi hc _
+    rw [addElement_eq]; simp only [hm]
+    exact F.own (matchTag_err w.stack cands start e (fun hs => candsOk_noRaise hs cands hc) hm)
+  -- ignore
+  · intro tag cands kids start w om hm hd hi _ _
+    rw [addElement_eq]; simp only [hm, hd]
+    exact ignoreFallback_post F w tag hi
+  -- skip: True
+  · intro tag cands kids start w om hm hd _ _ _
+    rw [addElement_eq]; simp only [hm, hd]
+    exact F.valueError
+  -- no rule / close_parent: blockOpen fails, leaf fallback, content fails, content succeeds
+  · intro tag cands kids start w om hm cp hd e hb hi _ _
+    have := blockOpen_post F w tag (normKids P tag kids).isEmpty cp hi
+    rw [hb] at this
+    rw [addElement_eq]; simp only [hm, hd, hb]; exact this
+  · intro tag cands kids start w om hm cp hd w1 hb hi _ _
+    have := blockOpen_post F w tag (normKids P tag kids).isEmpty cp hi
+    rw [hb] at this
+    rw [addElement_eq]; simp only [hm, hd, hb]; exact this
+  · intro tag cands kids start w om hm cp hd w1 bc hb e ha ih hi _ hk
+    have h1 := blockOpen_post F w tag (normKids P tag kids).isEmpty cp hi
+    rw [hb] at h1
+    have := ih h1 (by rw [listOk_normKids]; exact hk)
+    rw [ha] at this
+    rw [addElement_eq]; simp only [hm, hd, hb, ha]; exact this
+  · intro tag cands kids start w om hm cp hd w1 bc hb w' ha ih hi _ hk
+    have h1 := blockOpen_post F w tag (normKids P tag kids).isEmpty cp hi
+    rw [hb] at h1
+    have := ih h1 (by rw [listOk_normKids]; exact hk)
+    rw [ha] at this
+    rw [addElement_eq]; simp only [hm, hd, hb, ha]
+    exact blockClose_post F w' bc this
+  -- a rule: ruleOpen fails
+  · intro tag cands kids start w om hm m hd e hro hi _ _
+    have hom := decideTag_byRule _ _ _ hd
+    subst hom
+    have hmt := matchTag_some P _ _ _ _ hm
+    have := ruleOpen_post F w tag m.rule m.attrs hi (fun hs => tagRuleOk_of_rules (F.rules hs) _ _ hmt.2.2.2)
+    rw [hro] at this
+    rw [addElement_eq]; simp only [hm, hd, hro]; exact this
+  -- a rule: the content fails / succeeds
+  · intro tag cands kids start w om hm m hd w1 rc hro content e hce ih3 iha ihc hi hc hk
+    have hom := decideTag_byRule _ _ _ hd
+    subst hom
+    have hmt := matchTag_some P _ _ _ _ hm
+    have h1 := ruleOpen_post F w tag m.rule m.attrs hi (fun hs => tagRuleOk_of_rules (F.rules hs) _ _ hmt.2.2.2)
+    rw [hro] at h1
+    have hpair := candsOk_mem cands _ hc hmt.2.2.1
+    simp only [pairOk, Bool.and_eq_true] at hpair
+    have hk' : listOk strict N (normKids P tag kids) = true := by rw [listOk_normKids]; exact hk
+    have hcontent : Post I E content := by
+      simp only [content]
+      split
+      · exact h1
+      · split
+        · exact ih3 h1 hc hk'
+        · split
+          · exact insertAll_post F _ w1 h1 hpair.1.2
+          · exact iha h1 hpair.2
+          · exact ihc h1 hk'
+    rw [hce] at hcontent
+    rw [addElement_eq]; simp only [hm, hd, hro]
+    generalize hgen : (if rc.leaf = true then _ else _) = c
+    have hc2 : c = .error e := hgen.symm.trans hce
+    rw [hc2]; exact hcontent
+  · intro tag cands kids start w om hm m hd w1 rc hro content w' hce ih3 iha ihc hi hc hk
+    have hom := decideTag_byRule _ _ _ hd
+    subst hom
+    have hmt := matchTag_some P _ _ _ _ hm
+    have h1 := ruleOpen_post F w tag m.rule m.attrs hi (fun hs => tagRuleOk_of_rules (F.rules hs) _ _ hmt.2.2.2)
+    rw [hro] at h1
+    have hpair := candsOk_mem cands _ hc hmt.2.2.1
+    simp only [pairOk, Bool.and_eq_true] at hpair
+    have hk' : listOk strict N (normKids P tag kids) = true := by rw [listOk_normKids]; exact hk
+    have hcontent : Post I E content := by
+      simp only [content]
+      split
+      · exact h1
+      · split
+        · exact ih3 h1 hc hk'
+        · split
+          · exact insertAll_post F _ w1 h1 hpair.1.2
+          · exact iha h1 hpair.2
+          · exact ihc h1 hk'
+    rw [hce] at hcontent
+    rw [addElement_eq]; simp only [hm, hd, hro]
+    generalize hgen : (if rc.leaf = true then _ else _) = c
+    have hc2 : c = .ok w' := hgen.symm.trans hce
+    rw [hc2]
+    exact ruleClose_post F w' rc hcontent
+
+/-! ### first instance: the log of the walk replays to its state -/
+
+theorem run_snoc (S : Schema) (wsPre : TypeId → Bool) : ∀ (l : List Event) (st st1 st2 : PState) (e : Event) (r : Option Bool),
+    PState.run S wsPre st l = .ok st1 → st1.step S wsPre e = .ok (st2, r) → PState.run S wsPre st (l ++ [e]) = .ok st2
+  | [], st, st1, st2, e, r, h1, h2 => by
+    simp only [PState.run, Except.ok.injEq] at h1; subst h1
+    simp [PState.run, h2]
+  | x :: l, st, st1, st2, e, r, h1, h2 => by
+    unfold PState.run at h1
+    cases hs : st.step S wsPre x with
+    | error err => simp [hs] at h1
+    | ok res =>
+      simp only [hs] at h1
+      simp only [List.cons_append, PState.run, hs]
+      exact run_snoc S wsPre l res.1 st1 st2 e r h1 h2
+
+/-- the walk state is what the placement core reaches from `st0` on the logged calls, and every logged
+    call is one the walk may make -/
+def Replays (P : Parser) (N : Node → Bool) (st0 : PState) (w : WState) : Prop :=
+  PState.run P.S P.wsPre st0 w.log = .ok w.st ∧ ∀ e ∈ w.log, WalkEvent P.S N e
+
+theorem replays_frame (P : Parser) (N : Node → Bool) (st0 : PState) :
+    Frame P N (Replays P N st0) (fun _ => True) false where
+  emit := by
+    intro w e ⟨h1, h2⟩ he
+    unfold emit
+    cases hs : w.st.step P.S P.wsPre e with
+    | error err => trivial
+    | ok res =>
+      obtain ⟨st', r⟩ := res
+      refine ⟨run_snoc P.S P.wsPre w.log st0 w.st st' e r h1 hs, ?_⟩
+      intro x hx
+      rcases List.mem_append.1 hx with hx | hx
+      · exact h2 x hx
+      · simp only [List.mem_singleton] at hx; subst hx; exact he
+  nextMark := fun _ _ h => h
+  valueError := trivial
+  top := fun _ _ _ => trivial
+  lax := fun _ => trivial
+  rules := fun h => by cases h
+
+/-- **the walk is a run of the placement core**: whatever DOM and oracle, if `add_all` returns, its final
+    state is the state the placement core reaches on the logged sequence of calls -/
+theorem addAll_replays (P : Parser) (N : Node → Bool) (ptag : String) (kids : List DNode) (st0 : PState) (next : Nat)
+    (hk : listOk false N kids = true) (w : WState)
+    (h : addAll P ptag kids false { st := st0, nextMark := next } = .ok w) : Replays P N st0 w := by
+  have := (walk_post (replays_frame P N st0)).1 ptag kids false { st := st0, nextMark := next }
+    ⟨by simp [PState.run], by simp⟩ hk
+  rw [h] at this
+  exact this
+
+/-! ### `match_tag` = the first applicable candidate -/
+
+/-- candidate `c` (a rule whose selector and namespace match the element) is *applicable* from `start` on:
+    it is not before `start`, the rule exists, its `context` is empty or matches the open ancestors, and
+    its `get_attrs` did not answer `False` -/
+def applicableB (P : Parser) (stack : List TypeId) (start : Nat) (c : CandInfo) : Bool :=
+  decide (start ≤ c.idx) && (match P.tags[c.idx]? with
+    | none => false
+    | some r => contextOk P stack r.context && (match c.ga.resolve r.attrs with
+      | .skip => false
+      | _ => true))
+
+/-- what `match_tag` answers once it has settled on candidate `c` -/
+def tagMatchOf (P : Parser) (c : CandInfo) (alt : List DNode) : Res (Option TagMatch) :=
+  match P.tags[c.idx]? with
+  | none => .ok none
+  | some r =>
+    match c.ga.resolve r.attrs with
+    | .use a => .ok (some ⟨c.idx, r, a, c, alt⟩)
+    | .skip => .ok none
+    | .crash => .error .internal
+
+theorem matchTag_eq_find (P : Parser) (stack : List TypeId) (start : Nat) : ∀ (cands : List (CandInfo × List DNode)),
+    matchTag P stack cands start =
+      match cands.find? (fun c => applicableB P stack start c.1) with
+      | none => .ok none
+      | some (c, alt) => tagMatchOf P c alt
+  | [] => by simp [matchTag]
+  | (c, alt) :: rest => by
+    have ih := matchTag_eq_find P stack start rest
+    unfold matchTag
+    by_cases hlt : c.idx < start
+    · have hna : applicableB P stack start c = false := by
+        simp only [applicableB, Bool.and_eq_false_imp, decide_eq_true_eq]
+        intro h; omega
+      simp only [hlt, if_true, List.find?_cons, hna]
+      exact ih
+    · simp only [hlt, if_false]
+      have hle : start ≤ c.idx := Nat.le_of_not_lt hlt
+      cases hr : P.tags[c.idx]? with
+      | none =>
+        have hna : applicableB P stack start c = false := by simp [applicableB, hr]
+        simp only [List.find?_cons, hna]
+        exact ih
+      | some r =>
+        dsimp only
+        by_cases hctx : contextOk P stack r.context = true
+        · simp only [hctx, Bool.not_true, Bool.false_eq_true, if_false]
+          cases hres : c.ga.resolve r.attrs with
+          | skip =>
+            have hna : applicableB P stack start c = false := by simp [applicableB, hr, hres]
+            simp only [List.find?_cons, hna]
+            exact ih
+          | use a =>
+            have ha : applicableB P stack start c = true := by simp [applicableB, hr, hres, hctx, hle]
+            simp only [List.find?_cons, ha, tagMatchOf, hr, hres]
+          | crash =>
+            have ha : applicableB P stack start c = true := by simp [applicableB, hr, hres, hctx, hle]
+            simp only [List.find?_cons, ha, tagMatchOf, hr, hres]
+        · have hna : applicableB P stack start c = false := by simp [applicableB, hr, hctx]
+          simp only [hctx, Bool.not_false, if_true, List.find?_cons, hna]
+          exact ih
+
+/-- without guards (`strict = false`, nothing asked of `get_content` nodes) every DOM is admissible -/
+theorem listOk_lax (l : List DNode) : listOk false (fun _ => true) l = true :=
+  DNode.rec_2 (motive_1 := fun k => k.ok false (fun _ => true) = true)
+    (motive_2 := fun cs => candsOk false (fun _ => true) cs = true)
+    (motive_3 := fun l => listOk false (fun _ => true) l = true)
+    (motive_4 := fun c => pairOk false (fun _ => true) c = true)
+    (fun tag styles cands kids h1 h2 => by simp [DNode.ok, h1, h2])
+    (fun t => by simp [DNode.ok]) (by simp [DNode.ok])
+    (by simp [candsOk]) (fun c cs h1 h2 => by simp [candsOk, h1, h2])
+    (by simp [listOk]) (fun k ks h1 h2 => by simp [listOk, h1, h2])
+    (fun c alt h => by simp [pairOk, h]) l
+
 end PM.DomWalk
